@@ -446,3 +446,75 @@ def r7(R):
                                 'later revisions are removed with the '
                                 'directory')
     R.require(n >= 1, 'no writes to the blob removal list found')
+
+
+@rule('C13.R8', 'the packer tags a blob revision for removal only after '
+      'comparing it with the revision it keeps (two records of one '
+      'transaction share the blob file)', props=['C07'], min_instances=1)
+def r8(R):
+    cls = R.prog.cls(PACKER)
+    f = R.method(cls, 'copyDataRecords')
+    g, b, F = R.cfg(f, cls, max_depth=0)
+    writes = [0]
+
+    def compares_with_kept(node):
+        """evaluates <header of the reachable record>.tid == h.tid"""
+        if node.ast is None:
+            return False
+        for c in ast.walk(node.ast):
+            if isinstance(c, ast.Compare) and len(c.ops) == 1 and \
+                    isinstance(c.ops[0], (ast.Eq, ast.NotEq)):
+                sides = [c.left, c.comparators[0]]
+                if all(isinstance(x, ast.Attribute) and x.attr == 'tid'
+                       for x in sides):
+                    pv = provenance(c, node.frame, F)
+                    if any(k == 'path' and v[-1] == 'reachable'
+                           for k, v in pv) or prov_has(
+                            pv, 'call', lambda p: 'reachable' in p):
+                        return True
+        return False
+
+    def no_kept_revision(node, lab):
+        """branch establishing that there is no reachable record of the
+        object at all"""
+        from ..flow import implied_atoms
+        if node.kind != 'test' or lab not in ('T', 'F'):
+            return False
+        for e, truth in implied_atoms(node.ast, lab):
+            if isinstance(e, ast.Name) and not truth:
+                ds = F.b.local_defs(node.frame.func).get(e.id, [])
+                if len(ds) == 1 and isinstance(ds[0], ast.Call) and \
+                        isinstance(ds[0].func, ast.Attribute) and \
+                        ds[0].func.attr == 'get' and dotted(
+                            ds[0].func.value) and dotted(
+                                ds[0].func.value)[-1] == 'reachable':
+                    return True
+        return False
+
+    def edge(node, st, lab, tgt):
+        if node.kind == 'loophead':
+            return False
+        if compares_with_kept(node) or no_kept_revision(node, lab):
+            return True
+        return st
+
+    def at(node, st):
+        for op in F.ops(node):
+            if op.kind == 'call' and path_is(
+                    op.path, ('self', 'blob_removed', 'write')):
+                writes[0] += 1
+                if not st:
+                    return Violation(
+                        'a blob revision is tagged for removal on a path '
+                        'that never compared its tid with the tid of the '
+                        'revision that is kept: when a transaction wrote the '
+                        'object twice (multi-undo), the file of the kept '
+                        'revision is deleted')
+        return st
+
+    vs, stats = explore(g, False, at=at, edge=edge)
+    R.count(stats)
+    R.instance('FileStoragePacker.copyDataRecords', removal_writes=writes[0])
+    R.require(writes[0] or vs, 'no removal-list writes')
+    for v in vs:
+        R.violation(v.node, v.message, g, v.path)
